@@ -75,6 +75,35 @@ def gen_deck(rng):
     return d
 
 
+class _Hang(BaseException):
+    pass
+
+
+def limited_convert(text, args, name, secs=25):
+    """impl.convert with a time limit of its own (nested inside the framework's per-case alarm, which is put back with
+    the time it had left): a conversion that a fresh interpreter finishes in a second and that does not come back here
+    is a dependence on the history of the process, not an infrastructure failure"""
+    import signal
+    import time as _time
+
+    def on_alarm(signum, frame):
+        raise _Hang()
+    t0 = _time.time()
+    old = signal.signal(signal.SIGALRM, on_alarm)
+    left = signal.alarm(secs)
+    try:
+        return impl.convert(text, args, name=name)
+    except _Hang:
+        class R:
+            ok, t4, exc_type, exc_msg = False, None, 'Hang', 'conversion did not finish within %d s' % secs
+        return R()
+    finally:
+        signal.alarm(0)
+        signal.signal(signal.SIGALRM, old)
+        if left:
+            signal.alarm(max(1, int(left - (_time.time() - t0))))
+
+
 def fresh(text, args, hashseed):
     d = tempfile.mkdtemp(prefix='t4v-c18-')
     try:
@@ -191,10 +220,10 @@ def run_case(stream, seed, ctx, params):
         # a sibling of B converted BEFORE B: whatever a conversion memoises under B's numbers (and would keep when B
         # comes first) is then stale for B's first conversion, which is compared with a fresh process below
         try:
-            impl.convert(D.render_deck(sibling(d, rng), D.Layout(rng)), args, name='sibling')
+            limited_convert(D.render_deck(sibling(d, rng), D.Layout(rng)), args, name='sibling')
         except Exception:  # noqa
             pass
-    r1 = impl.convert(text, args, name='deckB')
+    r1 = limited_convert(text, args, name='deckB')
     inp = os.path.join(impl.scratch_dir(), 'deckB.imcnp')
     on_disk = hashlib.sha1(open(inp, 'rb').read()).hexdigest()
     others = []
@@ -202,7 +231,7 @@ def run_case(stream, seed, ctx, params):
     try:
         st = D.render_deck(sibling(d, rng), D.Layout(rng))
         others.append(st)
-        impl.convert(st, args, name='sibling')
+        limited_convert(st, args, name='sibling')
     except Exception:  # noqa  (a sibling that cannot be rendered is simply not used)
         pass
     for k in range(rng.randint(2, 4)):
@@ -212,8 +241,8 @@ def run_case(stream, seed, ctx, params):
         if rng.random() < 0.25:
             ot = ot.replace(' so ', ' qq ', 1) if ' so ' in ot else ot + 'tr9 0 0 0 1 0 0 0 1 0 0 0 1 -1\n'
         others.append(ot)
-        impl.convert(ot, random_options(rng), name='other%d' % k)
-    r2 = impl.convert(text, args, name='deckB')
+        limited_convert(ot, random_options(rng), name='other%d' % k)
+    r2 = limited_convert(text, args, name='deckB')
     on_disk2 = hashlib.sha1(open(inp, 'rb').read()).hexdigest()
     if on_disk != path_hash_before or on_disk2 != path_hash_before:
         fails.append(fail('violation', 'the input file was modified by the conversion', {'stream': 'history', 'class': 'input-modified'}, replay))
@@ -225,7 +254,8 @@ def run_case(stream, seed, ctx, params):
                           % (len(others), diff), {'stream': 'history', 'class': 'history-dependent'},
                           dict(replay, others=others)))
     # this worker process has a long history of earlier conversions: compare with a fresh interpreter now and then
-    if (seed % 6 == 0 or sib_first or getattr(d, '_always_fresh', False)) and r1.ok:
+    if (seed % 6 == 0 or sib_first or getattr(d, '_always_fresh', False) or r1.exc_type == 'Hang' or r2.exc_type == 'Hang') \
+            and (r1.ok or r1.exc_type == 'Hang'):
         f = strip_header(fresh(text, args, 0))
         if not f.startswith('SUBPROCESS FAILED') and f != a:
             diff = [(x, y) for x, y in zip(f.splitlines(), a.splitlines()) if x != y][:2] or [('length', len(f), len(a))]
